@@ -7,6 +7,8 @@
 #include <cstdarg>
 
 #include "engines/libobs.h"
+#define MC_ALLOCFAULT_IMPL
+#include "mc/allocfault.h"
 #include "mc/harness.h"
 #include "ref/status_map.h"
 
@@ -371,9 +373,19 @@ static void dfs(W& w, const Sys& s, std::vector<int>& path, int target, const st
     }
 }
 
+static bool abortedUpdate(W& w, const std::vector<int>& hist, int fop, int n, int after, bool judgeNow);
 static void replay(W& w, const std::string& cs)
 {
     auto kv = mc::kv_parse(cs);
+    if (kv.count("fop"))
+    {
+        std::vector<int> hist;
+        for (auto& t : mc::split(kv["s"], ','))
+            if (!t.empty())
+                hist.push_back(atoi(t.c_str()));
+        abortedUpdate(w, hist, atoi(kv["fop"].c_str()), atoi(kv["n"].c_str()), atoi(kv["after"].c_str()), true);
+        return;
+    }
     Sys s;
     int i = 0;
     for (auto& t : mc::split(kv["s"], ','))
@@ -384,6 +396,64 @@ static void replay(W& w, const std::string& cs)
         apply(s, kOps[k]);
         judge(w, s, fmt("after step %d (%s)", ++i, opName(kOps[k]).c_str()));
     }
+}
+
+// Aborted update: history (operations of the sharp sub-alphabet), then update operation `fop` in which allocation number n fails, then
+// the same update once more without a fault, then operation `after`. An aborted update either counts or does not count as "the
+// device has sent the message": directly behind it the tracker must equal the latest-message map of one of the two readings (no
+// entry for a device or interface that sent nothing, no entry without its packet, no second entry); after the repetition it must
+// equal the map with the message; then the exploration goes on as usual. Returns false if the call makes fewer than n allocations.
+static bool abortedUpdate(W& w, const std::vector<int>& hist, int fop, int n, int after, bool judgeNow)
+{
+    const Pool& P = pool();
+    Sys s;
+    for (int k : hist)
+        apply(s, kOps[k]);
+    const Op& o = kOps[fop];
+    const Packet& pk = o.kind == 'C' ? P.cm[o.d][o.v] : P.ifp[o.d][o.i][o.v];
+    bool thrown = false;
+    mc::af::arm(n);
+    try
+    {
+        s.s.update(pk);
+    }
+    catch (const std::bad_alloc&)
+    {
+        thrown = true;
+    }
+    const bool fired = mc::af::disarm();
+    if (!fired)
+        return false;
+    if (!judgeNow)
+        return true;
+    w.add(mc::C_TRANS, 3);
+    if (!thrown)
+        w.fail("aborted-call:allocation-failure-swallowed", fmt("allocation %d of %s failed, update() returned normally", n, opName(o).c_str()));
+    const std::string where = fmt("after %s aborted by the failure of its allocation %d", opName(o).c_str(), n);
+    {
+        Sys post = s;
+        if (o.kind == 'C')
+            post.m.updateCm(kDev[o.d], 100 + o.d * 10 + o.v);
+        else
+            post.m.updateIf(kDev[o.d], kIf[o.i], 1000 + o.d * 100 + o.i * 10 + o.v);
+        W a, b;
+        a.single = b.single = true;
+        judge(a, s, where);
+        if (!a.single_fails.empty())
+        {
+            judge(b, post, where);
+            if (!b.single_fails.empty())
+                w.fail("aborted-update:" + a.single_fails[0].key, where + ": the tracker equals neither the map without nor the map with the message; against the map without it: " + a.single_fails[0].desc);
+            else
+                s.m = post.m;
+        }
+    }
+    apply(s, o);   // the caller repeats the update
+    judge(w, s, where + fmt(" and repeated"));
+    apply(s, kOps[after]);
+    judge(w, s, where + fmt(", repeated, then %s", opName(kOps[after]).c_str()));
+    w.outcome(stateHash(s, 9));
+    return true;
 }
 
 struct BfsRec
@@ -545,6 +615,58 @@ int main(int argc, char** argv)
             if (run.out_of_time())
                 break;
         }
+    }
+    // fault injection at every allocation of every update (memory exhaustion inside the tracker)
+    {
+        const std::vector<int> sharp = sharpAlphabet();
+        const int ns = (int) sharp.size();
+        std::vector<int> upd;
+        for (int k = 0; k < nops; ++k)
+            if (kOps[k].kind == 'C' || kOps[k].kind == 'I')
+                upd.push_back(k);
+        const int hd = thorough ? 3 : 2;
+        uint64_t nh = 1;
+        for (int i = 0; i < hd; ++i)
+            nh *= (uint64_t) ns + 1;   // digit ns = "no operation": all histories of length <= hd
+        run.round(fmt("update calls aborted at their n-th allocation (every n): all histories of <= %d operations of the sharp sub-alphabet x %zu updates x every allocation x every next operation", hd, upd.size()),
+                  nh * upd.size(), [&, sharp, upd, ns, hd](W& w, uint64_t oidx) {
+                      uint64_t hcode = oidx / upd.size();
+                      int fop = upd[oidx % upd.size()];
+                      std::vector<int> hist;
+                      bool skip = false, ended = false;
+                      for (int i = 0; i < hd; ++i)
+                      {
+                          int dgt = (int) (hcode % (ns + 1));
+                          hcode /= (ns + 1);
+                          if (dgt == ns)
+                              ended = true;
+                          else if (ended)
+                              skip = true;   // canonical form: "no operation" digits only at the end
+                          else
+                              hist.push_back(sharp[dgt]);
+                      }
+                      if (skip)
+                          return;
+                      std::string hs;
+                      for (int k : hist)
+                          hs += (hs.empty() ? "" : ",") + std::to_string(k);
+                      for (int n = 1; n < 100; ++n)
+                      {
+                          W probe;
+                          probe.single = true;
+                          if (!abortedUpdate(probe, hist, fop, n, 0, false))
+                              break;
+                          for (int after : sharp)
+                          {
+                              auto desc = [&] { return fmt("s=%s;fop=%d;n=%d;after=%d;names=%s failing at allocation %d", hs.c_str(), fop, n, after, opName(kOps[fop]).c_str(), n); };
+                              if (!w.begin_case(desc))
+                                  continue;
+                              abortedUpdate(w, hist, fop, n, after, true);
+                              w.add(mc::C_TRACES, 1);
+                              w.add(mc::C_STATES, 3);
+                          }
+                      }
+                  });
     }
     runBfs(run, 16);   // runs until the frontier is empty: every reachable state of the alphabet is visited
     return run.finish();
